@@ -136,6 +136,10 @@ def check(ctx):
     nontype = Obj(ClassV("Value", [], {"__annotations__": DictV()}, mi, None, "Value", mutable=True))
     Comp = ClassV("Comp", [], {"__annotations__": DictV(), "preset_on_class": 5}, mi, None, "Comp", mutable=True)
     comp = Obj(Comp, {"preset_in_init": 0})
+    # a component class that inherits a preset (and a property) from a base class
+    BaseComp = ClassV("BaseComp", [], {"__annotations__": DictV(), "preset_on_base": 0.5}, mi, None, "BaseComp", mutable=True)
+    SubComp = ClassV("SubComp", [BaseComp], {"__annotations__": DictV()}, mi, None, "SubComp", mutable=True)
+    subcomp = Obj(SubComp, {})
 
     def req(hints, component):
         it = Interp(ctx.program)
@@ -150,6 +154,7 @@ def check(ctx):
         ("private attribute of an instance", {"_hidden": T, "dep": T}, comp, ("ok", {"dep": T})),
         ("attribute preset on the class", {"preset_on_class": T, "dep": T}, comp, ("ok", {"dep": T})),
         ("attribute set in __init__ (falsy value)", {"preset_in_init": T}, comp, ("ok", {})),
+        ("attribute preset on a base class of the component", {"preset_on_base": T, "dep": T}, subcomp, ("ok", {"dep": T})),
         ("generic alias annotation", {"dep": alias}, comp, ("ok", {"dep": T})),
         ("non-type annotation on an instance", {"dep": nontype}, comp, ("raise", "TypeError")),
         ("non-type annotation on a constructor", {"dep": nontype}, None, ("raise", "TypeError")),
